@@ -520,3 +520,7 @@ _amend("C18", "level_text", "(a) sequences of 1-6 messages",
 _amend("C03", "level_text", "and valid blocks are still accepted afterwards.",
        "and valid blocks are still accepted afterwards; (c) a DPoS node that, before some blocks of a canonical chain made by a reference node, builds a block of its own from the transactions of the coming blocks and loses it (refused as stale after the network's block, or given up): it must accept every block of the canonical chain, and after each block its in-memory voting power ranking and active system parameters must be those loaded from the state of its best block.")
 _amend("C03", "technique", "on a real node", "on a real node; differential of a producing-and-losing node against the canonical chain of a reference node")
+
+
+_amend("C17", "level_text", "Syncer unit: local / remote stub chains (highest shared block 0-12,",
+       "Syncer unit: local / remote stub chains (highest shared block 0-12, in a fifth of the cases 497-537 so that the lowest of the 32 anchors is not genesis; the anchor question may be answered 'none' although anchors match - how a busy peer's error status reaches the finder - and the full scan must then still arrive at the highest shared block;")
